@@ -145,6 +145,11 @@ def gen_spec(
             gen_index(rng, sym, max_charges=max_charges, max_size=max_size)
             for _ in range(ndim)
         ]
+        if len(indices) >= 2 and rng.random() < 0.08:
+            # two legs with the very same table and direction
+            i_, j_ = rng.sample(range(len(indices)), 2)
+            indices[j_] = {"cm": [list(p) for p in indices[i_]["cm"]],
+                           "dual": indices[i_]["dual"]}
     if charge is None:
         charge = pick_charge(rng, sym, indices, want_parity)
     secs = valid_sectors(sym, indices, charge)
@@ -235,6 +240,14 @@ def make_indices(spec):
             cm = list(reversed(items))
         else:
             cm = dict(items)
+        # one index *object* on two axes (indices are immutable value
+        # objects; users do write ``[ix, ix, iy]``): when an earlier axis has
+        # the very same table and direction, sometimes reuse its object
+        same = [j for j in range(i) if spec["indices"][j]["cm"] == ix["cm"]
+                and bool(spec["indices"][j]["dual"]) == bool(ix["dual"])]
+        if same and (seed // 23 + i) % 2 == 0:
+            out.append(out[same[0]])
+            continue
         out.append(sr.BlockIndex(cm, dual=bool(ix["dual"])))
     return tuple(out)
 
